@@ -17,7 +17,6 @@ PROPS = {}
 # properties not claimed (yet or ever), with the one-line reason that goes into MANIFEST.not_applicable
 _WIP = "check not built yet in this round (planned, see DESIGN.md section 5)"
 NOT_APPLICABLE = {
-    "C06": _WIP,
     "C12": _WIP,
     "C03": "accept/reject and AST construction live in a proc-macro-generated PEG parser over `str`; Verus cannot reason about str/macro output and Kani cannot carry a symbolic text past the mandatory header, so no contract within reach states 'accepts exactly this language'",
     "C16": "composes core::fmt/pad string formatting with the pest parser over all ASTs; both halves are str-level and outside what Verus accepts or Kani can bound meaningfully",
@@ -306,4 +305,21 @@ PROPS["C02"] = {
     "samples": [{"obligation": "C02.P.push.items-are-documented-encoding", "text": "push_instruction(inst) appends exactly enc_ref(inst, next_addr)", "domain": "every Instruction variant x operand shape x register, symbolic constants and address"}],
     "trusted": ["kani::stub(std::hash::RandomState::new -> fixed keys)"],
     "assumptions": ["parametricity in label text"],
+}
+
+PROPS["C06"] = {
+    "inject": ST_ALL + [ST_MACHINE, ("emulator-2a-lib/src/compiler.rs", "c02_translator.rs", "verif_c02"),
+                        ("emulator-2a-lib/src/compiler.rs", "c06_crash.rs", "verif_c06"),
+                        ("emulator-2a-lib/src/machine/mod.rs", "c06_load.rs", "verif_c06m")],
+    "groups": [{"match": "c06_load", "flags": []}, {"match": ".*", "flags": ["-Z", "stubbing"]}],
+    "select": lambda allh, tier, seed: [h for h in allh if h.startswith("c06_")],
+    "functions": ["Translator::push_instruction", "Machine::load", "compile/encoder helpers reached from push_instruction"],
+    "timeout": 900,
+    "technique": "no-panic postconditions (Kani's generated panic/overflow/bounds obligations) on Translator::push_instruction per instruction variant and on Machine::load, under the precondition 'accepted by the parser'; crashing regions split off as recorded findings",
+    "level_text": "Proof (partial, see note): push_instruction returns normally for every DEC operand shape, representative one-byte/jump/two-byte/limit instructions, forward .ORG and .BYTE at every position of the address counter that leaves room in the 8-bit address space; Machine::load returns normally for images that fit the RAM. The three remaining crash regions of the unchanged tree are recorded findings.",
+    "level_note": "Trusted: Kani/CBMC, rustc, kani::stub(RandomState::new). NOT DECIDED: Translator::finish with labels referenced in another letter case (hash-map look-up exhausts the verifier) and the remaining instruction variants with constant/label operands (same limit as C02). BOUNDED: .ORG distance/.BYTE n <= 5, load images <= 6 symbolic bytes plus the concrete 240-byte image.",
+    "bounded": ["c06_org_forward / c06_byte: distance / n <= 5", "c06_load_small_images: <= 6 bytes over two lines; c06_load_full_ram: one concrete 240-byte image"],
+    "samples": [{"obligation": "C06.P.push.returns-normally", "text": "accepted(inst) & next_addr <= 251 ==> push_instruction(inst) does not panic", "domain": "symbolic registers/constants/address counter per variant"}],
+    "trusted": ["kani::stub(std::hash::RandomState::new -> fixed keys)"],
+    "assumptions": [],
 }
